@@ -63,8 +63,8 @@ def dtc_worker(item):
 
 # ------------------------------------------------------------------ two stacks with DM1 services
 class Pair:
-    def __init__(self, dll, cas=((0x10,), (0x20,))):
-        self.w = w = rt.World()
+    def __init__(self, dll, cas=((0x10,), (0x20,)), trace_factory=None):
+        self.w = w = rt.World(trace_factory=trace_factory)
         rt.activate(w)
         self.bus = bus = Bus(w, base_lat=1e-3)
         self.dll = dll
@@ -453,6 +453,90 @@ def exchange_worker(item):
     return acc
 
 
+class HoldInDm1:
+    """trace factory: numbers the line events the job thread of stack A executes in diagnostic_messages.py; at the chosen one
+    a DM1 from a third node is put on the bus and the job thread is held until it has been handled by A's receive thread"""
+
+    def __init__(self, point, frame):
+        self.point, self.frame = point, frame
+        self.count = 0
+        self.where = None
+        self.bus = None
+        self.seen_j = 0
+
+    def __call__(self, lt, idx):
+        if lt.kind != 'J':
+            return None
+        k = self.seen_j
+        self.seen_j += 1
+        if k != 0:
+            return None
+        me = self
+
+        def tracer(frame, event, arg):
+            fn = frame.f_code.co_filename
+            if not fn.endswith('diagnostic_messages.py'):
+                return tracer if event == 'call' else None
+            if event == 'line':
+                me.count += 1
+                if me.count == me.point:
+                    me.where = "%s:%d" % (frame.f_code.co_name, frame.f_lineno)
+                    me.bus.ghost_node().send(*me.frame)
+                    rt.CUR.hold(0.003)
+            return tracer
+        return tracer
+
+
+def race_worker(item):
+    """one Dm1 object sends and receives; the job thread is pre-empted at every source line of the DM1 code while a DM1 of
+    a third node is received: what the node sends stays what its callback supplied"""
+    _k, dll, n, seed = item
+    acc = Acc()
+    tabA = [{'spn': 100 + i, 'fmi': 1 + i, 'oc': 2 + i} for i in range(n)]
+    lampA = {'pl': 1, 'awl': 0, 'rsl': 0, 'mil': 2}
+    refA = bytes(R.dm1_encode(lampA, tabA))
+    lampF, tabF = {'pl': 0, 'awl': 3, 'rsl': 1, 'mil': 0}, [{'spn': 0x7777, 'fmi': 9, 'oc': 33}]
+    foreign = ((6 << 26) | (0xFE << 16) | (0xCA << 8) | 0x33, bytes(R.dm1_encode(lampF, tabF)) + b'\xff\xff')
+
+    def one(point):
+        hold = HoldInDm1(point, foreign)
+        p = Pair('j1939-21', trace_factory=hold)
+        hold.bus = p.bus
+        try:
+            w = p.w
+            dA = j1939.Dm1(p.acas[0])
+            gotA = []
+            dA.subscribe(lambda sa, lamps, dtcs, ts: gotA.append((sa, lamp_name(lamps), [dict(d) for d in dtcs])))
+            dA.start_send(lambda: (dict(lampA), [dict(d) for d in tabA]), 0.2)
+            w.run_for(0.2 * 2.6 + (0.06 * (n + 1) if n > 1 else 0))
+            probs = []
+            fromA = [b for (_t, sa, b) in p.dm1_payloads_all() if sa == 0x10]
+            if len(fromA) < 2:
+                probs.append("DM1 cycles missing on the bus (%d messages)" % len(fromA))
+            if any(b != refA for b in fromA):
+                probs.append("a node's DM1 does not carry what its callback supplied: a DM1 of another node was received while it was being built")
+            if point and gotA != [(0x33, lamp_name(lampF), tabF)]:
+                probs.append("the DM1 of the third node was not delivered to the subscriber as sent")
+            if p.A.job.exc is not None:
+                probs.append("job thread dead: %s" % p.A.job.exc_type)
+            return hold.count, probs, hold.where
+        finally:
+            p.close()
+    total, probs, _ = one(0)
+    total2 = one(0)[0]
+    if total != total2 or probs:
+        acc.violation("HARNESS: DM1 race baseline not clean / not reproducible", {'part': 'dm1 race', 'dtc_count': n}, None, probs[:2] + [repr((total, total2))])
+        return acc
+    for point in range(1, total + 1):
+        _c, probs, where = one(point)
+        sc = {'part': 'job thread pre-empted in the DM1 code', 'dll': 'j1939-21', 'dtc_count': n, 'point': point}
+        acc.case(repr(sc), outcome=(bool(probs), where))
+        if probs:
+            acc.violation(csig(probs[0]), sc, None, probs[:3] + ["held at %s" % where])
+    acc.sample({'part': 'job thread pre-empted in the DM1 code', 'dtc_count': n, 'line_events': total})
+    return acc
+
+
 def dynsub_worker(item):
     """DM1 subscribers that unsubscribe (themselves / a neighbour) from inside the callback: every other subscriber still
     receives that DM1, the next cycle reaches exactly those still registered"""
@@ -526,6 +610,8 @@ def worker(item):
         return exchange_worker(item)
     if item[0] == 'dynsub':
         return dynsub_worker(item)
+    if item[0] == 'race':
+        return race_worker(item)
     return {'dtc': dtc_worker, 'dm1': dm1_worker, 'dm22': dm22_worker, 'hist': hist_worker, 'overlap': overlap_worker}[item[0]](item)
 
 
@@ -570,6 +656,8 @@ def run(tier, seed):
         for n in (1, 2, 3, 14, 15, 40):
             items.append(('exchange', dll, n, seed))
         items.append(('dynsub', dll, seed))
+    for n in (1, 2, 5):
+        items.append(('race', 'j1939-21', n, seed))
     return run_check(PROP, tier, seed, 'exploration', items, worker, RULE, ASSUME,
                      bounds={'dtc_counts': '1..400' if not quick else counts, 'history_depth': 3 if quick else 4})
 
@@ -588,6 +676,10 @@ def replay(rec):
         a = overlap_worker(('overlap', sc['dll'], sc['dtc_count'], sc['cycle'], rec.get('seed', 0)))
     elif part == 'one Dm1 object sends and receives':
         a = exchange_worker(('exchange', sc['dll'], sc['dtc_count'], rec.get('seed', 0)))
+    elif part == 'job thread pre-empted in the DM1 code':
+        a0 = race_worker(('race', sc['dll'], sc['dtc_count'], rec.get('seed', 0)))
+        a = Acc()
+        a.violations = [v for v in a0.violations if v['scenario'] == sc]
     elif part == 'subscriber unsubscribes inside its callback':
         a0 = dynsub_worker(('dynsub', sc['dll'], rec.get('seed', 0)))
         a = Acc()
